@@ -6,7 +6,8 @@ of Props/Cxx.v fails the audit.  Prints the theorem names for tools/props.py."""
 import re, sys, os
 ROOT = os.path.dirname(os.path.dirname(os.path.abspath(__file__)))
 pid = sys.argv[1]
-src = open(os.path.join(ROOT, "coq", "Props", pid + ".v")).read()
+files = [pid] + sys.argv[2:]
+src = "\n".join(open(os.path.join(ROOT, "coq", "Props", f + ".v")).read() for f in files)
 # strip comments
 out, depth, i = [], 0, 0
 while i < len(src):
@@ -23,9 +24,9 @@ with open(os.path.join(ROOT, "coq", "Pins", pid + ".v"), "w") as f:
     for imp in imports:
         imp = re.sub(r"Require Import\s+", "Require Import ", imp)
         # qualify with VT.
-        names = imp[len("Require Import "):-1].split()
+        names = [n for n in imp[len("Require Import "):-1].split() if n not in files]
         f.write("Require Import " + " ".join(("VT." + n) if not n.startswith(("VT.", "Coq.")) else n for n in names) + ".\n")
-    f.write("Require Import VT.Props.%s.\nOpen Scope N_scope.\n" % pid)
+    f.write("Require Import %s.\nOpen Scope N_scope.\n" % " ".join("VT.Props." + x for x in files))
     for name, stmt in thms:
         f.write("Check %s :%s.\nPrint Assumptions %s.\n" % (name, stmt, name))
 print(pid, [n for n, _ in thms])
